@@ -296,6 +296,18 @@ def named_cases():
                                        A.Declare(V("r"), A.Call(A.Paren(A.FuncE([], False, [A.Declare(V("x"), I(6)), A.Return(A.FuncE([], False, [A.OpAssign("+", V("x"), I(1)), A.Return(V("x"))]))])), [])),
                                        P(A.call("r")), P(A.call("r")), P(V("x")), A.Declare(V("fresh"), S("outer fresh")), P(V("fresh")),
                                        A.FuncStmt("host", [], False, [A.Declare(V("loc"), I(1)), A.ExprStmt(A.Call(A.FuncE([], False, [A.Declare(V("loc"), I(2)), P(V("loc"))]), [])), A.Return(V("loc"))]), P(A.call("host"))],
+        # the condition of a `while` lives outside the body's scope on every test, not only the first
+        "while_condition_scope": [A.Declare(V("i"), I(0)), A.While(A.Bin("<", V("i"), I(3)), [A.OpAssign("+", V("i"), I(1)), P(V("i")), A.Declare(V("i"), I(100)), P(V("i"))]), P(V("i")),
+                                  A.Declare(V("go"), A.Bool(True)), A.Declare(V("n"), I(0)),
+                                  A.While(V("go"), [A.OpAssign("+", V("n"), I(1)), A.If([(A.Bin(">=", V("n"), I(3)), [A.Assign(V("go"), A.Bool(False))])], None), A.Declare(V("go"), S("shadow")), A.Declare(V("n"), S("inner n")), P(V("n"))]), P(V("n")),
+                                  A.FuncStmt("cnt", [], False, [A.Declare(V("k"), I(0)), A.While(A.Bin("<", V("k"), I(2)), [A.OpAssign("+", V("k"), I(1)), A.Declare(V("k"), I(50))]), A.Return(V("k"))]), P(A.call("cnt"))],
+        # a `fn` statement takes effect where it stands, in a nested block as at top level
+        "fn_declared_later_in_block": [A.FuncStmt("d", [], False, [A.Return(S("outer"))]), A.Block([P(A.call("d")), A.FuncStmt("d", [], False, [A.Return(S("inner"))]), P(A.call("d"))]), P(A.call("d")),
+                                       A.FuncStmt("host", [], False, [A.Declare(V("r"), A.call("d")), A.FuncStmt("d", [], False, [A.Return(S("local"))]), A.Return(A.lst(V("r"), A.call("d")))]), P(A.call("host")),
+                                       A.If([(A.Bool(True), [P(A.call("d")), A.FuncStmt("d", [], False, [A.Return(S("in if"))]), P(A.call("d"))])], None),
+                                       A.For(V("_"), A.lst(I(1), I(2)), [P(A.call("d")), A.FuncStmt("d", [], False, [A.Return(S("in loop"))]), P(A.call("d"))])],
+        "fn_used_before_declared_in_block": [P(S("before")), A.Block([A.ExprStmt(A.call("later")), A.FuncStmt("later", [], False, [A.Return(I(1))])]), P(S("WRONG"))],
+        "fn_used_before_declared_in_function": [A.FuncStmt("host", [], False, [A.Declare(V("r"), A.call("later2")), A.FuncStmt("later2", [], False, [A.Return(I(1))]), A.Return(V("r"))]), P(S("before")), P(A.call("host")), P(S("WRONG"))],
         "empty_function_scope": [A.Declare(V("x"), I(1)), A.FuncStmt("outer", [], False, [A.FuncStmt("inner", [], False, [A.Declare(V("x"), I(2)), A.Return(V("x"))]), A.Return(A.call("inner"))]),
                                  P(A.call("outer")), P(V("x")), A.Block([A.Block([A.Declare(V("x"), I(3)), P(V("x"))]), P(V("x"))])],
     }
